@@ -65,6 +65,9 @@ ASSIGNOPS = ["=", "*=", "/=", "%=", "+=", "-=", "<<=", ">>=", "&=", "^=", "|="]
 UNOPS = ["&", "*", "+", "-", "~", "!"]
 
 
+INT_SUFFIXES = ["", "u", "U", "l", "L", "ul", "uL", "Ul", "UL", "lu", "lU", "Lu", "LU", "ll", "LL", "ull", "uLL", "Ull", "ULL", "llu", "llU", "LLu", "LLU"]
+
+
 def int_type(sp):
     suf = ""
     for ch in reversed(sp):
@@ -151,13 +154,18 @@ class Gen:
         if k <= 4:
             return ("id", r.choice(self.vars))
         if k <= 6:
-            return ("const", "int", r.choice(["0", "1", "42", "0x1F", "017", "10u", "7UL", "3ll", "0b101", "9ULL"]))
+            if r.random() < 0.5:
+                return ("const", "int", r.choice(["0", "1", "42", "0x1F", "017", "10u", "7UL", "3ll", "0b101", "9ULL"]))
+            return ("const", "int", r.choice(["7", "0", "012", "0x1f", "0XA", "0b11", "0B1"]) + r.choice(INT_SUFFIXES))
         if k == 7:
             return ("const", "float", r.choice(["1.5", ".5", "2.", "1e3", "1.5f", "2.5L", "0x1.8p3", "3e-2F", "0x1p-3", "0xA.8p+2f", "0X.4P1L", "09.5", "1.E+2"]))
         if k == 8:
             return ("const", "char", r.choice(["'a'", "'\\n'", "'\\''", "L'x'", "'\\x41'", "'\\0'", "u'z'", "L'\u00e9'", "'\u20ac'"]))
         if r.random() < 0.15:
-            return ("strcat", r.sample(['"s"', '"a b"', '""', '"x\\n"'], r.randint(2, 3)))
+            if r.random() < 0.5:
+                return ("strcat", r.sample(['"s"', '"a b"', '""', '"x\\n"', '"say \\"hi\\""', '"tail  "', '"\\\\"'], r.randint(2, 3)))
+            pre = r.choice(["L", "u", "U", "u8"])
+            return ("strcat", [pre + x for x in r.sample(['"s"', '"a b"', '""', '"say \\"hi\\""', '"tail  "', '"q\\""', '"\\\\"'], r.randint(2, 3))])
         if r.random() < 0.1:
             return ("offsetof", (("struct", "struct", "S"), [], []), r.choice([["f"], ["f", "g"], ["f", 2], ["arr", 1, "g"]]))
         return ("const", "string", r.choice(['"s"', '"a b"', '"q\\"uote"', '"\\\\"', 'L"w"', '""', 'u8"u"', '"caf\u00e9 \u65e5\u672c"', 'u8"\U0001f600!"', 'L"\u00fc\u00df"', '"\t tab"', '"ff\x0cvt\x0bcr\rfs\x1cnel\x85ls\u2028ps\u2029"',
@@ -226,7 +234,7 @@ class Gen:
             val = e[1][0]
             for s2 in e[1][1:]:
                 tk.add(s2)
-                val = val[:-1] + s2[1:]
+                val = val[:-1] + s2[s2.index('"') + 1:]      # the next piece without its prefix and opening quote
             return N("Constant", [S("string"), S(val)], i)
         if t == "offsetof":
             i = tk.add("offsetof")
@@ -428,6 +436,9 @@ class Gen:
         return ("list", ps, r.random() < 0.2)
 
     def typename(self, depth):
+        if self.rng.random() < 0.05:
+            q = self.rng.choice(["const", "volatile"])
+            return (self.base(), self.derivs(depth, abstract=True), [q, q])          # a repeated qualifier is valid C99 (6.7.3p4)
         if self.rng.random() < 0.08:
             inner = (self.base(), [d for d in self.derivs(1, abstract=True) if d[0] == "ptr"], [])
             return (("atomic", inner), self.derivs(max(depth - 1, 0), abstract=True), [])
@@ -706,6 +717,8 @@ class Gen:
         elif k == 2 and not file_scope:
             storage = [r.choice(["register", "auto"])]
         quals = r.sample(["const", "volatile"], 1) if r.random() < 0.2 else []
+        if quals and r.random() < 0.2:
+            quals = quals + quals          # a repeated qualifier is valid C99 (6.7.3p4)
         kb = r.randint(0, 9)
         if kb == 0:
             base = self.structdef(1)
@@ -1159,11 +1172,11 @@ def layout(tokens, rng, mode="random", filename="f.c", directives=True):
                 emit(rng.choice(["", "", " ", "\t"]))
                 form = rng.randint(0, 3)
                 if form == 0:
-                    nf = rng.choice(["inc/a.h", "b.c", "dir/sub/c.h"])
+                    nf = rng.choice(["inc/a.h", "b.c", "dir/sub/c.h", ""])
                     emit(f"# {nl} \"{nf}\"{rng.choice(['', ' 1', ' 2 3'])}\n")
                     cur_file = nf
                 elif form == 1:
-                    nf = rng.choice(["inc/a.h", "x y.c"])
+                    nf = rng.choice(["inc/a.h", "x y.c", ""])
                     emit(f"#line {nl} \"{nf}\"\n")
                     cur_file = nf
                 elif form == 2:
